@@ -49,6 +49,20 @@ CLAIMS = {
          "(hook) of Hasher/OutputReader must be 0 and later behaviour must equal the all-zero state's.",
          "Partial: object layout, padding bytes and moved-from temporaries are outside the model (padding is not scanned).",
          "Coq proof on the model (non-interference by construction) + memory-scan correspondence"),
+ "C13": ("Coq theorems (Props/C13.v): over strings as lists of Unicode scalars with byte lengths: print->parse round trip for "
+         "both layouts and LF/CRLF/no terminator, exact result for any OS byte path, injectivity, totality (never a panic), "
+         "success shape, every documented error class; the model is parametric in a two-bit configuration (code as it was / "
+         "with the two repairs) and the check probes which one the code under test is; `_refuted` witnesses pin the two "
+         "genuine defects found on the unchanged tree (now fixed). Correspondence: real parse_check_line/filepath_to_string "
+         "through a probe binary on every single-scalar mutation of ~40 valid lines (110k cases).",
+         "String literals of main.rs are modelled by hand; clap/anyhow untouched. b3sum harness = include!(main.rs) with a wild shim and clap without wrap_help.",
+         "Coq proof (string/UTF-8 model, induction) + exhaustive-mutation correspondence"),
+ "C12": ("Coq theorems (Props/C12.v): printed digest = lowercase hex / raw of S[seek..seek+len] for seek+len <= 2^64-1; "
+         "exit status 0 iff every line of every checkfile checks (any number of lines, saturating counter never wraps); every "
+         "failing line is diagnosed and the loop continues. Correspondence: the real b3sum binary on generated trees, flag "
+         "combinations, keys of length 0/31/32/33, checkfiles mixing good/stale/missing/malformed lines, LF/CRLF.",
+         "Partial: clap argument handling, rayon pool set-up, process exit and the OS are not modelled.",
+         "Coq proof on the model + binary-level correspondence"),
  "C02": ("Coq theorems (Props/C02.v) about the Hasher model; correspondence on random histories, exhaustive short 2-splits, "
          "Write/update_reader, all modes, every forced SIMD level.",
          "See Props/C02.v for exactly which statements are proved; update_rayon/mmap wrappers are C08/C11.",
